@@ -32,7 +32,7 @@ __CPROVER_assigns(verif_exc)
 /*@extract
 file = "src/place_global/transportation_1d.cpp"
 head = 'void Transportation1dSolver::checkSolutionOptimal\(const Solution &alloc\) const'
-slice_from = '// Does it allow some positive gain move right\?'
+slice_from = 'for \(int snk = 0; snk \+ 1 < nbSinks\(\); \+\+snk\)'
 this_members = {file = "src/place_global/transportation_1d.hpp", class = "Transportation1d"}
 nloops = 4
 rewrites = [['\bnbSinks\(\)', 'this->v_size', '1+']]
